@@ -165,9 +165,14 @@ def negRef (a : Dual α) : Dual α := ⟨-a.real, a.vars, vscaleR a.dual (-1)⟩
 
 variable [Transc α]
 
-/-- `Pow<f64>`: `dual * power * real^(power-1)` -/
+/-- `coeff_pow(c, x, e)`: the power `x^e` as a factor of a derivative coefficient `c · x^e`; zero when the
+coefficient is exactly zero (also at `x = 0`, where `x^e` is infinite) — the repair of the `0 · ∞ = NaN`
+defect of `pow` recorded in known_findings.json -/
+def coeffPow (c x e : α) : α := if Transc.eqb c 0 then 0 else Transc.powf x e
+
+/-- `Pow<f64>`: `dual * power * coeff_pow(power, real, power-1)` -/
 def pow (a : Dual α) (p : α) : Dual α :=
-  ⟨Transc.powf a.real p, a.vars, vscaleR (vscaleR a.dual p) (Transc.powf a.real (p - 1))⟩
+  ⟨Transc.powf a.real p, a.vars, vscaleR (vscaleR a.dual p) (coeffPow p a.real (p - 1))⟩
 
 /-- `f64 / Dual`: value `a / x`, derivative `−a / x²` (after the repair recorded in known_findings.json; before
 it the code computed `a * x.pow(-1)`, whose value is 1 ulp off the quotient for some `x`) -/
@@ -308,8 +313,9 @@ def negRef (a : Dual2 α) : Dual2 α := ⟨-a.real, a.vars, vscaleR a.dual (-1),
 variable [Transc α]
 
 def pow (a : Dual2 α) (p : α) : Dual2 α :=
-  let coeff := p * Transc.powf a.real (p - 1)
-  let coeff2 := half * p * (p - 1) * Transc.powf a.real (p - 2)
+  let coeff := p * Dual.coeffPow p a.real (p - 1)
+  let c2 := half * p * (p - 1)
+  let coeff2 := c2 * Dual.coeffPow c2 a.real (p - 2)
   let bc := outer a.dual a.dual
   ⟨Transc.powf a.real p, a.vars, vscaleR a.dual coeff, madd (mscaleR a.dual2 coeff) (mscaleR bc coeff2)⟩
 
